@@ -66,6 +66,7 @@ pub fn oracle(s: &ProgScene<X>, t: &Trace) -> Vec<Violation> {
         let name = opname(op);
         // (1) own response, handled exactly once
         if let (Op::Call(..), Some(Res::Reply(r))) = (op, o.res) {
+            crate::check::oblige("own-response");
             let own = submitted_id(op);
             let enters = an.enter_of_msg(0, r.id).len();
             let exited = an.exit_of_msg(0, r.id).is_some();
@@ -88,6 +89,9 @@ pub fn oracle(s: &ProgScene<X>, t: &Trace) -> Vec<Violation> {
             }
         }
         // (2) everything resolves once the actor has terminated
+        if term.is_some() {
+            crate::check::oblige("resolves-after-termination");
+        }
         if o.end.is_none() {
             if term.is_some() {
                 out.push(Violation {
@@ -103,6 +107,7 @@ pub fn oracle(s: &ProgScene<X>, t: &Trace) -> Vec<Violation> {
         let begun_after = o.begin > tidx;
         match op {
             Op::Call(..) | Op::Ping(_) | Op::Send(..) | Op::ForceSend(..) | Op::Cmd(..) | Op::Stop(_) | Op::Restart(_) if begun_after => {
+                crate::check::oblige("error-after-termination");
                 if o.ok() {
                     out.push(Violation {
                         clause: "error-after-termination",
@@ -112,6 +117,7 @@ pub fn oracle(s: &ProgScene<X>, t: &Trace) -> Vec<Violation> {
                 }
             }
             Op::Await(_) | Op::AwaitRef(_) => {
+                crate::check::oblige("await-yields-termination-result");
                 if o.ok() != graceful {
                     out.push(Violation {
                         clause: "await-yields-termination-result",
@@ -131,6 +137,7 @@ pub fn oracle(s: &ProgScene<X>, t: &Trace) -> Vec<Violation> {
                 }
             }
             Op::Join(_) | Op::JoinAwait(_) => {
+                crate::check::oblige(if graceful { "join-some-on-graceful" } else { "join-none-on-failure" });
                 if matches!(o.res, Some(Res::Joined(_))) {
                     joins_some += 1;
                     if !graceful {
@@ -291,6 +298,7 @@ pub fn property() -> Property {
     Property {
         id: "C02",
         cases,
+        clauses: &["own-response", "resolves-after-termination", "error-after-termination", "await-yields-termination-result", "join-none-on-failure", "join-some-on-graceful"],
         assumptions: &[
             "termination = the step in which the actor task ends; graceful = it ended without cancellation after stopped() finished",
             "a fire-and-forget send that was parked for mailbox space when the actor terminated may resolve either way (Ok means 'accepted into the mailbox' throughout the API); it only has to resolve",
